@@ -1,4 +1,4 @@
-CONSTANTS Clients = {1, 2} Services = {"a", "b"} Supported = {"a", "b"} Base = 1 S = 2 MaxFrames = 4 Threaded = FALSE LevelsUsed = {1, 2} Discards = {FALSE, TRUE}
+CONSTANTS Clients = {1, 2} Services = {"a", "b"} Supported = {"a", "b"} Base = 1 S = 2 MaxFrames = 4 Threaded = FALSE LevelsUsed = {1} Discards = {FALSE, TRUE}
 SPECIFICATION Spec
 INVARIANTS TypeOK RefCount CursorOK QueueOrder Buffers Delivery InOrder DeviceOpen
 PROPERTIES Filtered LossOnlyWhenFull OnlyBlockedLose
